@@ -155,6 +155,10 @@ def claimlist_chunk(specs):
                 m = ProofExp(axioms=list(lib.get_axioms()), notations=[], claims=[t.conc for t in ths], proof_expressions=ths)
                 g, c, p = pyrun.triple(pyrun.serialize_real(m, opt))
             except Exception as ex:  # noqa: BLE001
+                if desc['repeated']:
+                    # refusing a module that states a claim twice publishes nothing wrong: counted, not reported
+                    out['refused_repeated'] = out.get('refused_repeated', 0) + 1
+                    break
                 out['viol'].append((dict(desc, kind='serialize_raises'), f'{desc}: serialize(optimize={opt}) raised {type(ex).__name__}: {str(ex)[:150]}'))
                 break
             out['modules'] += 1
